@@ -94,6 +94,7 @@ def handleSJ (model : Bool) (ws : List String) (legacy : Bool := false) : Option
     some (strOfBits ((perms ds).map fun p => smoothJoin r p))
   else
     let v := smoothSpec r ds
+    if smoothJoin r ds != v then some "model-ne-spec" else   -- impossible by `smooth_eq_spec`
     some s!"V={boolStr v} P=1"
 
 /-- All pairwise `1 - (n_i·n_j)²` must be perfect squares for the exact run. -/
@@ -115,6 +116,8 @@ def handleSJ2 (model : Bool) (ws : List String) : Option String := do
     some (strOfBits ((perms es).map fun p => smoothJoinV2 dim ratSqrt ratAbs r p))
   else
     let v := smoothSpecV2 dim ratSqrt ratAbs r es
+    -- the closure model on the given order must agree with the sorted specification
+    if smoothJoinV2 dim ratSqrt ratAbs r es != v then some "model-ne-spec" else
     some s!"V={boolStr v} P=1"
 
 /-! ### smooth joins on IEEE doubles (same operations in the same order as the Go closure) -/
